@@ -443,3 +443,13 @@ mod tests {
 		assert!(matches!(o.check([key("b").as_slice()], 5), Err(Error::TransactionWriteConflict)));
 	}
 }
+
+// Verification hooks (guarded; stripped unless built with cfg(kani) or --cfg surrealkv_verif).
+#[cfg(kani)]
+mod verif_kani {
+	include!(concat!(env!("SURREALKV_VERIF_DIR"), "/kani/oracle.rs"));
+}
+#[cfg(all(test, surrealkv_verif))]
+mod verif_replay {
+	include!(concat!(env!("SURREALKV_VERIF_DIR"), "/replay/oracle.rs"));
+}
